@@ -101,6 +101,18 @@ def run_probe(repo, build_dir, test_filter=None):
             m = re.match(r'test (\w+) \.\.\. (ok|FAILED)', l.strip())
             if m:
                 res['tests'][m.group(1)] = m.group(2)
+        # a test that aborts (unwrap / index panic in an honest API sequence) without having printed a finding: the honest
+        # sequence itself failed -> C02 (honest sessions complete and deliver), with the panic message as the witness
+        for name, st in res['tests'].items():
+            if st != 'FAILED':
+                continue
+            blk = re.search(r"---- %s stdout ----\n(.*?)(?=\n---- |\nfailures:|\Z)" % re.escape(name), out, re.S)
+            text = blk.group(1) if blk else ''
+            if 'PROBE-FINDING' in text:
+                continue
+            pm = re.search(r"panicked at ([^\n]*)\n([^\n]*)", text)
+            msg = ('%s: %s' % (pm.group(1).strip(), pm.group(2).strip())) if pm else 'aborted'
+            res['findings'].setdefault('C02', []).append('probe test %s: an honest API sequence (complete handshake, conversion, in-order traffic) aborted: %s' % (name, msg[:300]))
         if not res['tests']:
             res['error'] = 'probe did not build/run: ' + out[-1500:]
     except Exception as e:   # noqa
